@@ -49,6 +49,12 @@ def instances(tier, seed):
                 params={"type": tname, "stream_len": sl}, symbolic=["every stream byte"], stubs=CS,
                 functions=[f"poulpy-core/src/layouts/compressed/{fname}.rs::<{tname} as ReaderFrom>::read_from"], timeout=1200, mem_gb=16,
                 core=sl in (4, 16)))
+    for sl in (0, 4, 8, 39, 40, 48):
+        out.append(Instance(
+            crate="hk_core", family="ser.core.LWECompressed.read", name=f"c18_core_LWECompressed_len{sl}", call=f"crate::c18_core::wrapper_read::<5, {sl}>()", unwind=56,
+            params={"type": "LWECompressed", "stream_len": sl}, symbolic=["every stream byte"], stubs=CS,
+            functions=["poulpy-core/src/layouts/compressed/lwe.rs::<LWECompressed as ReaderFrom>::read_from"], timeout=1200, mem_gb=16,
+            core=sl in (8, 40)))
     BS = [("std::fmt::format", "crate::c18_brk::fmt_stub")]
     for nk, lens in ((1, (0, 7, 8, 15, 16, 24, 100, 199, 200)), (2, (16, 200, 384))):
         for sl in lens:
@@ -75,7 +81,7 @@ def instances(tier, seed):
 
 META = {
     "bounds": "receivers: VecZnx n=2,cols=1,size 1 of max 2 (32 B); ScalarZnx n=2,cols=1; MatZnx n=2,1x1x1,size 1; stream length enumerated (every field boundary +-1, payload boundaries), every stream byte symbolic",
-    "outside": "the Ok path of BlindRotationKeyCompressed::read_from (streams long enough for a whole element), streams that reach the seed vector of GGSWCompressed/GGLWECompressed (>= 20 bytes: the allocation is sized by an untrusted 32-bit count, observed by reading, not encoded), poulpy-core wrappers other than GLWE/LWE/GLWECompressed/GGSWCompressed/GGLWECompressed, poulpy-bin-fhe readers other than BlindRotationKey and BlindRotationKeyCompressed (1-2 elements, n_glwe=2, rank 1, one row), larger receivers",
+    "outside": "the Ok path of BlindRotationKeyCompressed::read_from (streams long enough for a whole element), streams that reach the seed vector of GGSWCompressed/GGLWECompressed (>= 20 bytes: the allocation is sized by an untrusted 32-bit count, observed by reading, not encoded), poulpy-core wrappers other than GLWE/LWE/GLWECompressed/GGSWCompressed/GGLWECompressed/LWECompressed, poulpy-bin-fhe readers other than BlindRotationKey and BlindRotationKeyCompressed (1-2 elements, n_glwe=2, rank 1, one row), larger receivers",
     "assumptions": ["std::fmt::format replaced by an empty-string stub (error messages only)", "io::Result values are mem::forget-ed in the harness"],
     "stubs": ["std::fmt::format -> crate::c18::fmt_stub"],
 }
